@@ -290,3 +290,9 @@ def spectrum_after_change(V, cls, op):
     ops = dict(C4.COMMON_OPS)
     ops.update(C4.ACC_OPS)
     C4.run_op(V, cls, op, ops[op], ['fa_spectrum', 'fa_frequencies', 'fa_freqs', 'npts'], prewarm=True)
+
+
+from pyvc.api import int_variant
+int_variant('C06', 'Signal.gen_fa_spectrum', ['x'])
+int_variant('C06', 'array-level-fa-spectrum', ['x'])
+int_variant('C06', 'exact-DFT/round-trip-and-Parseval', ['x'])
